@@ -127,6 +127,7 @@ int main(int argc, char** argv) {
     LOG(ERROR) << "warm up glog";
     g_args = vf::parse_args(argc, argv);
     vf::g_event_sink = sink;
+    (void) vf::slice_pool();
     track::enable(true);
     pthread_attr_t attr;
     pthread_attr_init(&attr);
